@@ -604,6 +604,18 @@ func (ex *exec) evalAppend(st *State, call *ast.CallExpr) Value {
 	newLen := ex.add(sv.Len, addN)
 	fits := ex.le(newLen, sv.Cap)
 	fits = ex.simplifyUnderPC(st, fits)
+	if fits != True && fits != False && sv.Base.Obj != nil {
+		// ask the solver whether the capacity always (or never) suffices under the path condition: an append inside
+		// a loop whose invariant bounds the length stays in place then, instead of being modelled as a reallocation
+		saved := ex.lemmaTimeout
+		ex.lemmaTimeout = 3
+		if ex.lemma(st, fits, "append-fits", call.Pos()) {
+			fits = True
+		} else if ex.lemma(st, Not(fits), "append-grows", call.Pos()) {
+			fits = False
+		}
+		ex.lemmaTimeout = saved
+	}
 	write := func(s *State, dst *Slice) {
 		if add != nil {
 			ex.copyElems(s, dst, sv.Len, add, addN, call.Pos())
